@@ -233,12 +233,16 @@ PLANS["C07"] = {
     # exhaustive native enumeration: (harness, payload radix, max runs per shard)
     "native_exhaustive": {"quick": [("c07::preconditions_len_%d" % n, 1, 400000000) for n in range(3, 10)] + [("c07::paren_walk_%d" % n, 1, 400000000) for n in (10, 12, 14, 16)] + [("c13::unknown_rejected_%d" % n, 1, 400000000) for n in (2, 3, 4)] + [("c07::single_damage", 1, 400000000)],
                           "thorough": [("c07::preconditions_len_%d" % n, 1, 400000000) for n in range(3, 11)] + [("c07::paren_walk_%d" % n, 1, 400000000) for n in (10, 12, 14, 16)] + [("c13::unknown_rejected_%d" % n, 1, 400000000) for n in (2, 3, 4)] + [("c07::single_damage", 1, 400000000)]},
+    # the same enumeration on cargo's optimised profile (debug assertions off): a guard that /repo compiles only under
+    # cfg(debug_assertions) is absent there (seeded change C07_7)
+    "native_exhaustive_release": {t: [("c07::single_damage", 1, 400000000)] for t in ("quick", "thorough")},
     "kani_timeout": {"quick": 900, "thorough": 3000},
     "owns_unprefixed": True,
     "trusted_base": [A_CBMC, A_FMT, A_NOOVF], "assumptions": [A_CBMC, A_FMT, A_NOOVF],
-    "not_covered": ["the operand/operator count check (make_expression, DeepEx::new) is not under a deductive contract: only reached by c07::single_damage (single-point damages of 10 expressions through all five parsers, native enumeration, debug build)", "unknown-character rejection by the regex tokenizer is not under a deductive contract: only enumerated natively over a 26-piece palette (c13::unknown_rejected_*, bounds)", "token sequences longer than the bounds"],
+    "not_covered": ["the operand/operator count check (make_expression, DeepEx::new) is not under a deductive contract: only reached by c07::single_damage (single-point damages of 10 expressions through all five parsers, native enumeration, debug build and optimised build)",
+                    "build profiles: Kani and every other native run use the debug profile; only c07::single_damage is repeated on the release profile", "unknown-character rejection by the regex tokenizer is not under a deductive contract: only enumerated natively over a 26-piece palette (c13::unknown_rejected_*, bounds)", "token sequences longer than the bounds"],
     "bounds": {"quick": ["Kani (symbolic token kinds and payloads): all token sequences of length 0, 1, 2 and 3 over 7 token kinds (length 3: 38 of the 49 two-token prefixes, each with a symbolic third token; the 11 prefixes with a legally placed operator in the middle do not finish in 15 min)",
-                         "exhaustive native enumeration (explicit runs of the same contract body on the real code; bounded stand-in, not a proof): EVERY sequence of 3..=9 tokens over the 7 token kinds (number payload fixed), and every pair-valid sequence of 10, 12, 14 and 16 tokens over {number, (, ), binary operator} for the parenthesis walk / trailing-operator rule; tokenize_and_analyze rejects every text of 2..=4 pieces of a 26-piece palette (incl. `=`, U+03AC, which lies between the two Greek ranges, and the two-byte blank-like U+00A0) that the reference tokenizer of C13 cannot tokenise; c07::single_damage: 10 well-formed expressions x {delete a parenthesis, insert ( or ) anywhere, append a binary operator, extra operand beside any operand, illegal character anywhere} x {FlatEx::parse, parse_wo_compile, DeepEx::parse, eval_str, parse_val} never parses"],
+                         "exhaustive native enumeration (explicit runs of the same contract body on the real code; bounded stand-in, not a proof): EVERY sequence of 3..=9 tokens over the 7 token kinds (number payload fixed), and every pair-valid sequence of 10, 12, 14 and 16 tokens over {number, (, ), binary operator} for the parenthesis walk / trailing-operator rule; tokenize_and_analyze rejects every text of 2..=4 pieces of a 26-piece palette (incl. `=`, U+03AC, which lies between the two Greek ranges, and the two-byte blank-like U+00A0) that the reference tokenizer of C13 cannot tokenise; c07::single_damage: 10 well-formed expressions x {delete a parenthesis, insert ( or ) anywhere, append a binary operator, extra operand beside any operand, illegal character anywhere} x {FlatEx::parse, parse_wo_compile, DeepEx::parse, eval_str, parse_val} never parses — run on the debug profile and again on cargo's release profile (debug assertions off)"],
                "thorough": ["as quick, plus every sequence of 10 tokens over the 7 kinds (282 million runs). Kani length 4 was tried: most of the 343 harnesses with three fixed kinds take 3-19 s, a few do not finish in 10 min"]},
     "explanation": "Partial, bounded: check_parsed_token_preconditions rejects exactly the documented malformed shapes for every short token sequence.",
 }
